@@ -285,6 +285,8 @@ class _Run:
     def known_len(self, it: V) -> Optional[int]:
         """length of an iterable derived from a sequence whose length the scenario fixes"""
         sl = self.sim.seq_len
+        if isinstance(it, tuple) and it and it[0] == "tuple":
+            return len(it[1])  # a tuple display (or a constant table): as many iterations as items
         if not sl or not isinstance(it, tuple) or not it:
             return None
         if it in sl:
@@ -340,6 +342,8 @@ class _Run:
     def element(self, it: V, lineno: int, i: int) -> V:
         """The i-th element produced by iterating `it`; zip / enumerate / [k:] slices are resolved to elements of the
         underlying sequences so that the same element has the same identity in different loops."""
+        if isinstance(it, tuple) and it and it[0] == "tuple" and i < len(it[1]):
+            return it[1][i]
         if isinstance(it, tuple) and it and it[0] == "call" and it[1] == "zip" and it[2]:
             return ("tuple", tuple(self.element(a, lineno, i) for a in it[2]))
         if isinstance(it, tuple) and it and it[0] == "call" and it[1] == "enumerate" and len(it[2]) == 1:
@@ -506,6 +510,12 @@ class _Run:
                 return ("func", r.key)
             if cn == "ModInfo":
                 return ("module", r.name)
+        okc, val = self.prog.resolve_constant(fi.module, e.id)
+        if okc:
+            return const(val)  # a named integer / string constant of the package (LP_INFEASIBLE = 2)
+        tab = self.prog.resolve_table(fi.module, e.id)
+        if tab is not None:
+            return self.eval(tab, {})  # a constant table of the module: its items are known
         if e.id in fi.module.assigns:
             return ("global", fi.module.base, e.id)
         if e.id in fi.module.imports:
@@ -534,10 +544,15 @@ class _Run:
                     return ("module", r.name)
         if b[0] == "ext":
             return ("ext", b[1] + "." + e.attr)
+        if b[0] == "tuple" and len(b) > 2 and e.attr in b[2]:
+            return b[1][b[2].index(e.attr)]  # field of a NamedTuple record
         return ("attr", b, e.attr)
 
     def e_Subscript(self, e, env):
-        return ("sub", self.eval(e.value, env), self.eval(e.slice, env))
+        b, i = self.eval(e.value, env), self.eval(e.slice, env)
+        if b[0] == "tuple" and len(b) > 2 and is_const(i) and isinstance(i[1], int) and not isinstance(i[1], bool) and -len(b[1]) <= i[1] < len(b[1]):
+            return b[1][i[1]]
+        return ("sub", b, i)
 
     def e_Slice(self, e, env):
         return ("slice", self.eval(e.lower, env) if e.lower else None, self.eval(e.upper, env) if e.upper else None, self.eval(e.step, env) if e.step else None)
@@ -633,6 +648,16 @@ class _Run:
         self.site += 1
         callee = self.callee_name(f)
         recv = f[1] if f[0] == "attr" else None
+        if f[0] == "func" and self.sim.inline is not None and self.sim.inline(f[1]):
+            # a new module-level function to which exactly one function of the reference tree forwards all its
+            # parameters: calling it is calling that function (the rules know it by that name)
+            fwd = getattr(self.prog, "forwarded", {}).get(f[1])
+            if fwd is not None and not self.sim.inline(fwd) and self.fstack[-1].key != fwd:
+                f = ("func", fwd)
+                callee = self.callee_name(f)
+        rec = self._record(f, args, kws) if f[0] == "class" else None
+        if rec is not None:
+            return rec
         if f[0] == "class":
             v = ("new", f[1], args, kws, self.site)
         elif f[0] == "attr":
@@ -660,6 +685,36 @@ class _Run:
                     self.path.events.pop()
                     return self.inline_call(target.key, args, kws, e, f[1])
         return v
+
+    def _record(self, f: V, args, kws) -> Optional[V]:
+        """Construction of a NamedTuple class of the package: a tuple whose items can also be read by field name
+        (`Rec(*call)` spreads the call's result over the fields)."""
+        ci = self.prog.classes.get(f[1])
+        if ci is None or not any(norm(b).split(".")[-1] == "NamedTuple" for b in ci.node.bases) or self.prog.resolve_method(f[1], "__new__") is not None:
+            return None
+        names = [n for n, _d in ci.fields]
+        items: List[Optional[V]] = []
+        for a in args:
+            if isinstance(a, tuple) and a and a[0] == "star":
+                src = a[1]
+                if isinstance(src, tuple) and src and src[0] == "tuple":
+                    items.extend(src[1])
+                else:
+                    k0 = len(items)
+                    items.extend(("item", src, i) for i in range(len(names) - k0))
+            else:
+                items.append(a)
+        items = items[: len(names)] + [None] * (len(names) - len(items))
+        for k, v in kws:
+            if k not in names:
+                raise AnalysisError("%s has no field %s" % (f[1], k))
+            items[names.index(k)] = v
+        for i, (n, d) in enumerate(ci.fields):
+            if items[i] is None:
+                if d is None:
+                    raise AnalysisError("%s built without its field %s" % (f[1], n))
+                items[i] = self.eval(d, {})
+        return ("tuple", tuple(items), tuple(names))
 
     def _method_target(self, recv: V, name: str):
         fi = self.fstack[-1]
